@@ -147,7 +147,7 @@ func c10EditedCopy(r *fw.Rand, g *gen.FG, renumber bool, drop bool) *gen.FG {
 
 func c10N(tier string) int {
 	if tier == "thorough" {
-		return 12000
+		return 120000
 	}
 	return 600
 }
